@@ -452,6 +452,13 @@ pub fn run(tier: &str) -> Result<Report, String> {
     }
     deep.push("!{x}: !{xx}: !{xxx}: !{xxxx}: ({x} & {xxxx})".into());
     deep.push("!{x}: !{xx}: !{xxx}: ({x} & {xxx})".into());
+    // names of OTHER symbolic variables of the graph used as propositions (which ones exist depends on the number of spare
+    // variable sets of the graph): not network variables, so the input must be rejected
+    for n in ["a_extra_0", "a_extra_1", "a_extra_2", "b_extra_0", "b_extra_2", "a_extra_3"] {
+        for shape in ["{n}", "EF {n}", "~ {n} & a", "!{x}: AX ({x} | {n})", "3{x} in %d%: @{x}: ({n} & %p%)", "a EU {n}"] {
+            deep.push(shape.replace("{n}", n));
+        }
+    }
     for s in &deep {
         rep.evaluations += 4 * 25;
         let bad = check_string(&env, s, &[0, 1, 2, 3], &mixed);
@@ -502,7 +509,7 @@ pub fn run(tier: &str) -> Result<Report, String> {
     rep.sample(json!({"input": "!{x}: @{y}: a", "expected": "Err from every entry point (free jump target), for every k"}));
     rep.sample(json!({"input": "3{y} in %d%: ~ {y}", "labels_present": ["p"], "expected": "Err (domain d has no context set)"}));
     rep.sample(json!({"input": "3{y} in %d%: ~ {y}", "labels_present": ["p", "d"], "k": 0, "expected": "Err (needs 1 spare variable set)"}));
-    rep.rule = format!("(a) every sequence of 1..{t} tokens over {TOKENS:?} and every string of 1..{k} symbols over {CHARS:?} through all 25 string entry points (plain, dirty, multiple, extended, unsafe_ex, callback variants, lists [valid,s] / [s,valid] with a short and with a tall valid formula) on graphs with k=0,2 (k=0..3 when the grammar derives the string) spare variable sets; (a2) every sequence of <= 3 (4) tokens over {{EF_x, _x, EF, AG_x, EX_x, AG, ~, &, EU_x, EU, (, ), AX_, x}} on a network with the variables EF_x and _x; (b) every closed extended formula with <= {m} nodes x every subset of its required labels (sets: mixed / empty / full / colour-disjoint families) x k in {{depth-1, depth, 3}}; (b3) every ordered pair and triple of 9 formulae that use one context label both as a wild-card proposition and as a domain, through three multi-formula extended entry points (Ok, position by position the single result); (b2) every tree with at most 5 (thorough 7) nodes over the binder-focused alphabet {{a, x, y, AX, &, @, and ! / 3 / V each without and with the domain %d%}} printed and given to all 25 entry points (ill-scoped: Err; well-scoped: Ok when k suffices); (c) {} deep / long inputs (nesting 10 and 40; long names of 2-, 3- and 4-byte characters at every byte alignment; 7 kinds of Unicode white space in every gap of every hybrid operator header). Oracle: Ok iff reference parser accepts, scope rules hold, all labels present and k >= nesting depth; Err otherwise; a panic is always a violation. distinct_nontrivial = number of enumerated strings the grammar derives", deep.len());
+    rep.rule = format!("(a) every sequence of 1..{t} tokens over {TOKENS:?} and every string of 1..{k} symbols over {CHARS:?} through all 25 string entry points (plain, dirty, multiple, extended, unsafe_ex, callback variants, lists [valid,s] / [s,valid] with a short and with a tall valid formula) on graphs with k=0,2 (k=0..3 when the grammar derives the string) spare variable sets; (a2) every sequence of <= 3 (4) tokens over {{EF_x, _x, EF, AG_x, EX_x, AG, ~, &, EU_x, EU, (, ), AX_, x}} on a network with the variables EF_x and _x; (b) every closed extended formula with <= {m} nodes x every subset of its required labels (sets: mixed / empty / full / colour-disjoint families) x k in {{depth-1, depth, 3}}; (b3) every ordered pair and triple of 9 formulae that use one context label both as a wild-card proposition and as a domain, through three multi-formula extended entry points (Ok, position by position the single result); (b2) every tree with at most 5 (thorough 7) nodes over the binder-focused alphabet {{a, x, y, AX, &, @, and ! / 3 / V each without and with the domain %d%}} printed and given to all 25 entry points (ill-scoped: Err; well-scoped: Ok when k suffices); (c) {} deep / long inputs (nesting 10 and 40; names of the graph's spare symbolic variables as propositions; long names of 2-, 3- and 4-byte characters at every byte alignment; 7 kinds of Unicode white space in every gap of every hybrid operator header). Oracle: Ok iff reference parser accepts, scope rules hold, all labels present and k >= nesting depth; Err otherwise; a panic is always a violation. distinct_nontrivial = number of enumerated strings the grammar derives", deep.len());
     rep.assumptions.push("context sets satisfy the documented precondition (inside the unit set, independent of auxiliary variables)".into());
     Ok(rep)
 }
